@@ -229,6 +229,8 @@ pub use report::{
 };
 pub use solver::{resolve, Dependencies, DependencyProvider, OfflineDependencyProvider};
 pub use term::Term;
+#[cfg(pubgrub_verif)]
+pub use term::verif as verif_term;
 pub use type_aliases::{DependencyConstraints, Map, SelectedDependencies, Set};
 pub use version::{SemanticVersion, VersionParseError};
 pub use version_set::VersionSet;
